@@ -2,6 +2,7 @@
   Fc/Holds.lean — which property monitors apply to which case, and their verdicts on a trace.
 -/
 import Fc.Monitors
+import Fc.MonFun
 
 namespace Fc
 open Mon
@@ -21,6 +22,13 @@ def holdsAll (c : Case) (nch : Nat) (t : List Ev) : List (String × Bool) :=
    ("C03", holds_C03 c.fam.isGroup t)]
   ++ (if c.inC16 then [("C16", holds_C16 t)] else [])
   ++ (if c.fam.inC20 then [("C20", holds_C20 (!c.fam.isGroup) nch t)] else [])
+  ++ (match c.fam with
+      | .joinSlice | .joinTuple => [("C04", holds_C04 c.n t)]
+      | .tryJoinSlice | .tryJoinTuple => [("C05", holds_C05 c.n t)]
+      | .race => [("C06", holds_C06 t)]
+      | .raceOkArr | .raceOkVec | .raceOkTup => [("C07", holds_C07 c.n t)]
+      | .waitF | .waitS => [("C19", holds_C19 t)]
+      | _ => [])
 
 def holdsText (c : Case) (nch : Nat) (t : List Ev) : String :=
   " ".intercalate ((holdsAll c nch t).map (fun p => s!"{p.1}={if p.2 then 1 else 0}"))
